@@ -1,5 +1,5 @@
 #!/usr/bin/env python3
-"""seedkeep.py <seed-out-dir> "<RESULT line of tools/seedverify.sh>" — copies a confirmed seeded change into /verif/seeded/<id>/.
+"""seedkeep.py <seed-out-dir> "<RESULT line of tools/seedverify.sh>" [suffix] — copies a confirmed seeded change into /verif/seeded/<id>/.
 
 A change is kept only when it compiled, the repository's own suite passed with it, and its demonstration
 failed with the change and passed without it (all re-run by tools/seedverify.sh in a scratch worktree).
@@ -7,6 +7,7 @@ failed with the change and passed without it (all re-run by tools/seedverify.sh 
 import json, os, re, shutil, sys
 
 src, result = sys.argv[1], sys.argv[2]
+suffix = sys.argv[3] if len(sys.argv) > 3 else ""  # e.g. "b" for the second round
 root = os.environ.get("VERIF_ROOT", os.path.dirname(os.path.dirname(os.path.abspath(__file__))))
 meta = json.load(open(os.path.join(src, "meta.json")))
 pid = meta["property"]
@@ -14,7 +15,7 @@ want = dict(build="ok", suite_failing_pkgs="0", demo_with_change="fail", demo_wi
 got = dict(re.findall(r"(\w+)=(\S+)", result))
 if any(got.get(k) != v for k, v in want.items()):
     sys.exit(f"{pid}: not confirmed ({result}) - not kept")
-dst = os.path.join(root, "seeded", pid)
+dst = os.path.join(root, "seeded", pid + suffix)
 os.makedirs(dst, exist_ok=True)
 shutil.copy(os.path.join(src, "patch.diff"), os.path.join(dst, "patch.diff"))
 shutil.copy(os.path.join(src, "demo_test.go"), os.path.join(dst, "demo_test.go"))
